@@ -554,6 +554,29 @@ func (c01) Eval(t *testing.T, c *Case, dec func(int) *Decider) *Outcome {
 			o.Stats.probe("fresh-read-checked")
 		}
 	}
+	// ALTER TABLE ... SET changes how the file is written, not what the table
+	// holds: wherever it stands inside its transaction, the committed bytes must
+	// be the same. Run the procedure again with every SET statement moved to the
+	// start of its transaction and compare the files.
+	if p.ExitCode == 0 && ending == "normal" && len(o.Violations) == 0 {
+		alt, moved := c01HoistSetStatements(meta.Lines)
+		if moved {
+			asc := *sc
+			asc.Cancels = nil
+			asc.Procs = append([]ProcSpec{}, sc.Procs...)
+			asc.Procs[0].Program = strings.Join(alt, "\n")
+			ares, _ := Execute(t, &asc, dec(2))
+			o.Runs++
+			if ares.Procs[0].ExitCode == 0 && ares.Hang == "" {
+				for _, name := range []string{"t0.csv", "t1.csv"} {
+					if a, b := res.Final[name].Data, ares.Final[name].Data; a != b {
+						o.viol(prop, "all-or-nothing", "attributes-not-written", fmt.Sprintf("%s is written differently when the ALTER TABLE ... SET statements of a transaction stand after other changes to the table than when they stand first: %s", name, firstDiff(b, a)))
+					}
+				}
+				o.Stats.probe("set-attribute-order-checked")
+			}
+		}
+	}
 	o.Sample = map[string]interface{}{"seed": c.Seed, "program": sc.Procs[0].Program, "ending": ending, "cancels": sc.Cancels, "exit": p.ExitCode, "err": firstLine(p.ErrText), "commits_observed": len(obs.snaps), "final_files": res.Final.Names()}
 	return o
 }
@@ -581,4 +604,33 @@ func (c01) Shrinks(c *Case) []*Case {
 		out = append(out, cand)
 	}
 	return out
+}
+
+// c01HoistSetStatements moves every "ALTER TABLE t SET ..." line to the start
+// of the transaction it belongs to (after the preceding COMMIT / ROLLBACK
+// line), keeping their relative order. It reports whether anything moved.
+func c01HoistSetStatements(lines []string) ([]string, bool) {
+	var out, segRest, segSets []string
+	moved := false
+	flush := func() {
+		out = append(out, segSets...)
+		out = append(out, segRest...)
+		segRest, segSets = nil, nil
+	}
+	for _, l := range lines {
+		switch {
+		case strings.HasPrefix(l, "ALTER TABLE") && strings.Contains(l, " SET ") && !strings.Contains(l, "; "):
+			if len(segRest) > 0 {
+				moved = true
+			}
+			segSets = append(segSets, l)
+		case l == "COMMIT;" || l == "ROLLBACK;":
+			flush()
+			out = append(out, l)
+		default:
+			segRest = append(segRest, l)
+		}
+	}
+	flush()
+	return out, moved
 }
